@@ -37,6 +37,8 @@ struct Event {
 struct LoopCtx {
     label: Option<String>,
     counter: Option<String>,
+    /// inclusive range `a..=b`: the iteration with counter == usize::MAX is the last one (no wrap-around)
+    closed: bool,
 }
 
 struct Sk<'a> {
@@ -48,6 +50,7 @@ struct Sk<'a> {
     tracked_ref: Vec<String>,         // tracked names that are references (`&mut T` parameters, `&mut self`)
     events: HashMap<String, Event>,
     readonly: Vec<String>,
+    trackfields: Vec<String>,
     flags: Vec<String>,
     on_assign: Vec<(String, String)>,
     on_then: Vec<(Vec<pattern::Pat>, String, String)>,
@@ -171,7 +174,8 @@ impl<'a> Sk<'a> {
         }
         Ok(match recv {
             Some(r) => format!("{r}.{name}({})", kept_args.join(", ")),
-            None => format!("{name}({})", kept_args.join(", ")),
+            // `Self(..)` (tuple-struct constructor as an event) is emitted as `Self_(..)`
+            None => format!("{}({})", if name == "Self" { "Self_" } else { name }, kept_args.join(", ")),
         })
     }
 
@@ -292,6 +296,21 @@ impl<'a> Sk<'a> {
             }
             Expr::MethodCall(m) => {
                 let name = m.method.to_string();
+                // an event method applied to the value of another event (`a.f(x)?.g()?`)
+                if self.events.get(&name).map(|e| !e.free).unwrap_or(false) && self.is_tracked_root(&m.receiver).is_none() {
+                    let mut pre = Vec::new();
+                    let rv = self.val(&m.receiver, &mut pre)?;
+                    out.extend(pre);
+                    return match rv {
+                        Some(rv) => Ok(Some(self.event_call(&name, Some(rv), &m.args, out)?)),
+                        None => {
+                            for a in &m.args {
+                                self.effects(a, out)?;
+                            }
+                            Ok(None)
+                        }
+                    };
+                }
                 if let Some(root) = self.is_tracked_root(&m.receiver) {
                     // method of a tracked object
                     let recv_text = self.val(&m.receiver, out)?.unwrap_or(root.clone());
@@ -373,6 +392,17 @@ impl<'a> Sk<'a> {
                 Ok(None)
             }
             Expr::Field(f) => {
+                // S13: a declared field of a tracked object keeps its value (`//@trackfield temperature`)
+                if let syn::Member::Named(id) = &f.member {
+                    if self.trackfields.contains(&id.to_string()) {
+                        if let Some(base) = self.val(&f.base, out)? {
+                            if self.is_tracked_root(&f.base).is_some() || self.kept.contains_key(base.trim_start_matches('&').trim_start_matches("mut ")) {
+                                return Ok(Some(format!("{base}.{id}")));
+                            }
+                        }
+                        return Ok(None);
+                    }
+                }
                 self.effects(&f.base, out)?;
                 Ok(None)
             }
@@ -820,8 +850,21 @@ impl<'a> Sk<'a> {
                 }
                 let mut all = Vec::new();
                 for f in forms {
-                    all.push(self.expand_aliases(f.clone()));
+                    all.push(self.expand_aliases(f.clone(), None));
+                    // one alias at a time (the pattern may itself name some of the locals)
+                    let mut ids: Vec<String> = Vec::new();
+                    Self::idents_of(f.clone(), &mut ids);
+                    for id in ids {
+                        if self.let_alias.contains_key(&id) {
+                            all.push(self.expand_aliases(f.clone(), Some(&id)));
+                        }
+                    }
                     all.push(f);
+                }
+                if std::env::var("VX_DEBUG").is_ok() {
+                    for f in &all {
+                        eprintln!("cond_implies form: {}", f);
+                    }
                 }
                 all.into_iter().any(|f| pattern::matches(pat, f, &mut pattern::Bindings::new()))
             }
@@ -829,7 +872,21 @@ impl<'a> Sk<'a> {
     }
 
     /// replace every identifier that is an immutable single-assignment `let` alias by its initialiser
-    fn expand_aliases(&self, ts: proc_macro2::TokenStream) -> proc_macro2::TokenStream {
+    fn idents_of(ts: proc_macro2::TokenStream, out: &mut Vec<String>) {
+        for t in ts {
+            match t {
+                proc_macro2::TokenTree::Ident(i) => {
+                    let s = i.to_string();
+                    if !out.contains(&s) {
+                        out.push(s);
+                    }
+                }
+                proc_macro2::TokenTree::Group(g) => Self::idents_of(g.stream(), out),
+                _ => {}
+            }
+        }
+    }
+    fn expand_aliases(&self, ts: proc_macro2::TokenStream, only: Option<&str>) -> proc_macro2::TokenStream {
         use proc_macro2::TokenTree;
         let mut out = proc_macro2::TokenStream::new();
         let toks: Vec<TokenTree> = ts.into_iter().collect();
@@ -838,12 +895,12 @@ impl<'a> Sk<'a> {
                 TokenTree::Ident(id) => {
                     let after_dot = k > 0 && matches!(&toks[k - 1], TokenTree::Punct(p) if p.as_char() == '.');
                     match self.let_alias.get(&id.to_string()) {
-                        Some(init) if !after_dot => out.extend(init.clone()),
+                        Some(init) if !after_dot && only.map(|o| id == o).unwrap_or(true) => out.extend(init.clone()),
                         _ => out.extend(std::iter::once(t.clone())),
                     }
                 }
                 TokenTree::Group(g) => {
-                    let inner = self.expand_aliases(g.stream());
+                    let inner = self.expand_aliases(g.stream(), only);
                     out.extend(std::iter::once(TokenTree::Group(proc_macro2::Group::new(g.delimiter(), inner))));
                 }
                 _ => out.extend(std::iter::once(t.clone())),
@@ -1272,10 +1329,13 @@ impl<'a> Sk<'a> {
                     out.push(format!("{ltxt}while {counter} {} {hi_v}", if closed { "<=" } else { "<" }));
                     out.extend(ind(spec));
                     out.push("{".into());
-                    self.loops.push(LoopCtx { label, counter: Some(counter.clone()) });
+                    self.loops.push(LoopCtx { label, counter: Some(counter.clone()), closed });
                     let mut inner = Vec::new();
                     self.body(&f.body, &mut inner)?;
                     self.loops.pop();
+                    if closed {
+                        inner.push(format!("if {counter} == usize::MAX {{ break; }}"));
+                    }
                     inner.push(format!("{counter} += 1;"));
                     out.extend(ind(inner));
                     out.push("}".into());
@@ -1287,7 +1347,7 @@ impl<'a> Sk<'a> {
                     out.push(format!("{ltxt}while nd() {}", self.srcnote(f.pat.span())));
                     out.extend(ind(spec));
                     out.push("{".into());
-                    self.loops.push(LoopCtx { label, counter: None });
+                    self.loops.push(LoopCtx { label, counter: None, closed: false });
                     let mut inner = Vec::new();
                     let mut names = Vec::new();
                     collect_pat_idents(&f.pat, &mut names);
@@ -1319,7 +1379,7 @@ impl<'a> Sk<'a> {
                 out.push(format!("{ltxt}while {c} {}", self.srcnote(w.cond.span())));
                 out.extend(ind(spec));
                 out.push("{".into());
-                self.loops.push(LoopCtx { label, counter: None });
+                self.loops.push(LoopCtx { label, counter: None, closed: false });
                 let mut inner = Vec::new();
                 self.body(&w.body, &mut inner)?;
                 self.loops.pop();
@@ -1336,7 +1396,7 @@ impl<'a> Sk<'a> {
                 out.push(format!("{ltxt}loop {}", self.srcnote(l.loop_token.span())));
                 out.extend(ind(spec));
                 out.push("{".into());
-                self.loops.push(LoopCtx { label, counter: None });
+                self.loops.push(LoopCtx { label, counter: None, closed: false });
                 let mut inner = Vec::new();
                 self.body(&l.body, &mut inner)?;
                 self.loops.pop();
@@ -1357,7 +1417,11 @@ impl<'a> Sk<'a> {
                     Some(l) => self.loops.iter().rev().find(|x| x.label.as_deref() == Some(&l.ident.to_string())),
                     None => self.loops.last(),
                 };
-                if let Some(LoopCtx { counter: Some(k), .. }) = target {
+                if let Some(LoopCtx { counter: Some(k), closed, label: tl }) = target {
+                    if *closed {
+                        let bl = tl.as_ref().map(|l| format!(" '{l}")).unwrap_or_default();
+                        out.push(format!("if {k} == usize::MAX {{ break{bl}; }}"));
+                    }
                     out.push(format!("{k} += 1;"));
                 }
                 let l = c.label.as_ref().map(|l| format!(" '{}", l.ident)).unwrap_or_default();
@@ -1457,6 +1521,7 @@ pub fn skeleton_fn(ctx: &mut Ctx, blk: &Block) -> Result<(String, Value), String
         tracked_ref: vec![],
         events: HashMap::new(),
         readonly: vec![],
+        trackfields: vec![],
         flags: vec![],
         on_assign: vec![],
         on_then: vec![],
@@ -1578,6 +1643,7 @@ pub fn skeleton_fn(ctx: &mut Ctx, blk: &Block) -> Result<(String, Value), String
                 sk.events.insert(n, ev);
             }
             "readonly" => sk.readonly.extend(s.arg.split(',').map(|x| x.trim().to_string())),
+            "trackfield" => sk.trackfields.extend(s.arg.split(',').map(|x| x.trim().to_string())),
             "flag" => sk.flags.push(s.arg.trim().to_string()),
             "on" | "on?" => {
                 let optional = s.kind == "on?";
@@ -1714,6 +1780,9 @@ pub fn skeleton_fn(ctx: &mut Ctx, blk: &Block) -> Result<(String, Value), String
                 }
             }
         }
+    }
+    if std::env::var("VX_DEBUG").is_ok() {
+        eprintln!("let_alias keys: {:?}", sk.let_alias.keys().collect::<Vec<_>>());
     }
     sk.block_tail(f.block, &mut body)?;
     // every declared hook must have fired (lost anchor otherwise)
